@@ -13,6 +13,10 @@ Inductive obs :=
   | OCall (name : str) (fast : bool) (args : list value) (r : res value)  (* operator application (= OP_EXEC event) *)
   | OLoop (pos : Z) (of : nkind) (stack : list value).                    (* LOOP event *)
 
+(* the observations of a run without its LOOP events *)
+Definition drop_loops (tr : list obs) : list obs :=
+  filter (fun o => match o with OLoop _ _ _ => false | _ => true end) tr.
+
 Definition firstnZ {A} (n : Z) (l : list A) : list A := firstn (Z.to_nat n) l.
 Definition preM {A} (tr : list obs) (x : list obs * A) : list obs * A := (tr ++ fst x, snd x).
 
